@@ -172,7 +172,7 @@ def d1_schema(ctx, js):
     ctx.check(rule, 'json#deltas-row', ok, 'each row = [configuration number, one value per observable]', 'row construction differs', js.loc(gf))
     # serialiser fallback converts numpy scalars
     jf = js.func('create_json_string._jsonifier')
-    t = unparse(jf)
+    t = js.text(jf)
     ctx.check(rule, 'json#_jsonifier', 'isinstance(obj, np.integer)' in t and 'return int(obj)' in t and 'isinstance(obj, np.floating)' in t and 'return float(obj)' in t, 'numpy integers / floats are converted', '_jsonifier differs')
 
 
@@ -344,7 +344,7 @@ def d4_offsets(ctx, js):
         ctx.check(rule, 'json#%s-value' % rd, okv, 'central value restored from the value list at the same index', '_value = %s' % [unparse(s.value) for s in vv])
     # data decoding: first column = configuration number
     df = js.func('_parse_json_dict._gen_obsd_from_datad')
-    t = unparse(df)
+    t = js.text(df)
     ok = "retd['idl'].append([di[0] for di in rep['deltas']])" in t and "retd['deltas'].append(np.array([di[1:] for di in rep['deltas']]))" in t and "retd['names'].append(rep_name)" in t
     ctx.check(rule, 'json#row-decoding', ok, 'row[0] -> configuration number, row[1:] -> samples, appended together with the replica name', 'row decoding differs')
     wv = js.func('create_json_string.write_List_to_dict')
@@ -399,20 +399,20 @@ def d6_transports(ctx, js):
     ctx.check(rule, 'pandas#sql-pair', ok, 'sqlite writer/reader paired', 'sql transport differs')
     obs = ctx.repo.mod('obs')
     misc = ctx.repo.mod('misc')
-    t = unparse(obs.func('Obs.dump'))
-    ok = "open(file_name + '.p', 'wb')" in t and 'pickle.dump(self, fb)' in t and 'dump_to_json([self], file_name' in t
+    t = obs.text(obs.func('Obs.dump'))
+    ok = "open(file_name + '.p', 'wb')" in t and 'pickle.dump(self, fb)' in t and 'dump_to_json([self], file_name, description=description)' in t
     ctx.check(rule, 'obs#dump', ok, 'Obs.dump: json.gz via dump_to_json, pickle binary', 'Obs.dump differs')
-    t1, t2 = unparse(misc.func('dump_object')), unparse(misc.func('load_object'))
+    t1, t2 = misc.text(misc.func('dump_object')), misc.text(misc.func('load_object'))
     ok = "'wb'" in t1 and 'pickle.dump(obj, fb)' in t1 and "'rb'" in t2 and 'pickle.load(file)' in t2
     ctx.check(rule, 'misc#pickle-pair', ok, 'pickle dump (wb) paired with pickle load (rb)', 'pickle transport differs')
     cm = ctx.repo.mod('correlators')
-    t = unparse(cm.func('Corr.dump'))
-    ctx.check(rule, 'correlators#dump', 'dump_to_json(self, file_name)' in t and 'dump_object(self, filename' in t, 'Corr.dump: json.gz / pickle', 'Corr.dump differs')
+    t = cm.text(cm.func('Corr.dump'))
+    ctx.check(rule, 'correlators#dump', 'dump_to_json(self, file_name)' in t and 'dump_object(self, filename, **kwargs)' in t, 'Corr.dump: json.gz / pickle', 'Corr.dump differs')
     # dict transport: placeholders
-    t1, t2 = unparse(js.func('_ol_from_dict')), unparse(js.func('_od_from_list_and_dict'))
+    t1, t2 = js.text(js.func('_ol_from_dict')), js.text(js.func('_od_from_list_and_dict'))
     ok = "reps + '%d' % counter" in t1 and 'index = int(v[len(reps):])' in t2 and 'ol[index]' in t2
     ctx.check(rule, 'json#dict-placeholders', ok, 'placeholder reps<k> written for the k-th structure and resolved to ol[k]', 'placeholder handling differs')
-    t = unparse(js.func('load_json_dict'))
+    t = js.text(js.func('load_json_dict'))
     ok = "indata['description']['OBSDICT']" in t and "indata['description']['description']" in t and "'OBSDICT': {}" in unparse(js.func('dump_dict_to_json'))
     ctx.check(rule, 'json#dict-description', ok, 'dictionary skeleton stored under description.OBSDICT and read from there', 'dict skeleton handling differs')
 
